@@ -429,7 +429,7 @@ impl Network {
                     .get(vt)
                     .unwrap()
                     .maximal_formation_count()
-                    .unwrap_or(1)
+                    .unwrap_or(100) // same default as the flow bounds of the MinCostFlowSolver
             })
             .max()
             .unwrap_or(1);
